@@ -41,10 +41,10 @@ type VerifH3SScript struct {
 	Fin     error
 	FinWith bool
 
-	Written   [][]byte   // every underlying Write call
-	Cancels   [][2]int64 // (0 = CancelRead | 1 = CancelWrite, code), in call order
-	ReadCalls int
-	CloseN    int
+	Written    [][]byte   // every underlying Write call
+	Cancels    [][2]int64 // (0 = CancelRead | 1 = CancelWrite, code), in call order
+	ReadCalls  int
+	CloseN     int
 	WriteErrAt int // the k-th (1-based) underlying Write fails with a stream error; 0 = never
 }
 
@@ -96,22 +96,22 @@ func (s *VerifH3SScript) CancelRead(c quic.StreamErrorCode) {
 func (s *VerifH3SScript) CancelWrite(c quic.StreamErrorCode) {
 	s.Cancels = append(s.Cancels, [2]int64{1, int64(c)})
 }
-func (s *VerifH3SScript) StreamID() quic.StreamID                      { return 4 }
-func (s *VerifH3SScript) Context() context.Context                     { return context.Background() }
-func (s *VerifH3SScript) SetDeadline(time.Time) error                  { return nil }
-func (s *VerifH3SScript) SetReadDeadline(time.Time) error              { return nil }
-func (s *VerifH3SScript) SetWriteDeadline(time.Time) error             { return nil }
-func (s *VerifH3SScript) SendDatagram([]byte) error                    { return nil }
+func (s *VerifH3SScript) StreamID() quic.StreamID                         { return 4 }
+func (s *VerifH3SScript) Context() context.Context                        { return context.Background() }
+func (s *VerifH3SScript) SetDeadline(time.Time) error                     { return nil }
+func (s *VerifH3SScript) SetReadDeadline(time.Time) error                 { return nil }
+func (s *VerifH3SScript) SetWriteDeadline(time.Time) error                { return nil }
+func (s *VerifH3SScript) SendDatagram([]byte) error                       { return nil }
 func (s *VerifH3SScript) ReceiveDatagram(context.Context) ([]byte, error) { return nil, io.EOF }
-func (s *VerifH3SScript) QUICStream() *quic.Stream                     { return nil }
+func (s *VerifH3SScript) QUICStream() *quic.Stream                        { return nil }
 
 // Error classes (the small enum the model speaks).
 const (
 	VerifH3SErrNil = iota
 	VerifH3SErrEOF
-	VerifH3SErrStream        // *quic.StreamError as returned by the quic stream; arg = 2*code+remote
-	VerifH3SErrH3            // *http3.Error (after maybeReplaceError); arg = 2*code+remote
-	VerifH3SErrTooMuchData   // errTooMuchData
+	VerifH3SErrStream      // *quic.StreamError as returned by the quic stream; arg = 2*code+remote
+	VerifH3SErrH3          // *http3.Error (after maybeReplaceError); arg = 2*code+remote
+	VerifH3SErrTooMuchData // errTooMuchData
 	VerifH3SErrDataAfterTrailers
 	VerifH3SErrHeadersAfterTrailers
 	VerifH3SErrUnexpectedFrame
@@ -187,14 +187,14 @@ func scan(s, format string, n *int64) bool {
 
 // VerifH3SFrame: one result of frameParser.ParseNext.
 type VerifH3SFrame struct {
-	Kind      int64 // 0 DATA, 1 HEADERS, 4 SETTINGS, 7 GOAWAY, -1 error
-	Length    uint64
-	HeaderLen int64
-	MaxFieldSectionSize int64
+	Kind                      int64 // 0 DATA, 1 HEADERS, 4 SETTINGS, 7 GOAWAY, -1 error
+	Length                    uint64
+	HeaderLen                 int64
+	MaxFieldSectionSize       int64
 	Datagram, ExtendedConnect bool
-	Other     [][2]uint64 // sorted by id
-	GoAwayID  int64
-	ErrCls, ErrArg int64
+	Other                     [][2]uint64 // sorted by id
+	GoAwayID                  int64
+	ErrCls, ErrArg            int64
 }
 
 // VerifH3SParse runs ParseNext up to nmax times on one frameParser wired like the control
